@@ -15,6 +15,19 @@ EXTENDS Schnorr, TLC, FiniteSets
 
 VARIABLES mKind, mX, mE
 
+Bug == IF "VERIF_BUG" \in DOMAIN IOEnv THEN IOEnv.VERIF_BUG ELSE "none"      \* a deliberately wrong design, selected by the orchestrator for non-vacuity runs
+(* non-vacuity: verification that forgets the parity of R / accepts s >= n by reducing it *)
+VerifyUT(Mul(_, _), pp, r, s, e) ==
+  CASE Bug = "odd_R_accepted" ->
+         /\ r < P /\ s < N
+         /\ LET rr == PAdd(Mul(s, GenPt), Mul(SNeg(e), pp)) IN ~IsInf(rr) /\ rr[1] = r
+    [] Bug = "s_reduced" -> r < P /\ VerifyCoreM(Mul, pp, r, s % N, e)
+    [] OTHER -> VerifyCoreM(Mul, pp, r, s, e)
+(* ... and signing that forgets to negate the nonce when R has odd y *)
+SignUT(Mul(_, _), d, k0, Ch(_)) ==
+  LET sg == SignCoreM(Mul, d, k0, Ch) IN
+  IF Bug = "sign_no_negate_k" THEN <<sg[1], (k0 + Ch(sg[1]) * sg[3]) % N, sg[3], sg[4]>> ELSE sg
+
 ZN   == 0..(N - 1)
 FP   == 0..(P - 1)
 Aff  == TLCEval({<<x, y>> \in FP \X FP : (y * y) % P = (x * x * x + B) % P})
@@ -42,11 +55,11 @@ VerifyInv == Leaf /\ mKind = "verify" =>
     \A r \in 0..XMax, s \in 0..(N + 3) :
       LET byDef == /\ r < P /\ s < N
                    /\ \E k \in 1..(N - 1) : GT[k][1] = r /\ GT[k][2] % 2 = 0 /\ s = (k + mE * d) % N
-      IN  VerifyCoreM(TMul, pp, r, s, mE) <=> byDef
+      IN  VerifyUT(TMul, pp, r, s, mE) <=> byDef
 
 SignInv == Leaf /\ mKind = "sign" =>
   \A k0 \in 1..(N - 1) :
-    LET sg == SignCoreM(TMul, mX, k0, LAMBDA x : mE)
+    LET sg == SignUT(TMul, mX, k0, LAMBDA x : mE)
         pp == XOnly(GT[mX]) IN
     /\ VerifyCoreM(TMul, pp, sg[1], sg[2], mE)
     /\ GT[sg[3]] = pp /\ sg[3] \in {mX, (N - mX) % N}
